@@ -179,6 +179,11 @@ func (fv *FV) callFn(st *State, x *ssa.Call, fn *ssa.Function, binds []SymVal, a
 			return st
 		}
 	}
+	if isRepoFunc(fn) {
+		// a repository function without contract that cannot be inlined (it has a loop or is too big):
+		// what follows the call on this path is verified against an arbitrary heap
+		fv.uncontracted[key] = true
+	}
 	fv.unmodelledCall(st, x, key)
 	return st
 }
@@ -269,7 +274,7 @@ func (fv *FV) applyContract(st *State, spec *FuncSpec, fn *ssa.Function, c *ssa.
 	short := spec.Key
 	for i, cl := range spec.Requires {
 		g := pre.Eval(cl.E)
-		fv.oblige(st, "pre", short+":"+clauseName(cl, i), pos, g, cl.Text)
+		fv.oblige(st, "pre", short+":"+clauseName(cl, unlabelledOrd(spec.Requires, i)), pos, g, cl.Text)
 	}
 	// termination of recursion: callee measure strictly below the caller's entry measure
 	if fn != nil && len(spec.Decreases) > 0 && fv.spec != nil && len(fv.spec.Decreases) == len(spec.Decreases) && (fn == fv.fn || fv.spec.Mutual) {
@@ -782,6 +787,10 @@ func (fv *FV) builtin(st *State, x *ssa.Call, b *ssa.Builtin) {
 		default:
 			fv.decls.Add(1, "pv_maplen", "(declare-fun pv_maplen (Int) Int)")
 			st.frame.Regs[x] = tv(Term{S: "(pv_maplen " + a.S + ")", Sort: SInt, T: types.Typ[types.Int]})
+		}
+		if r := st.frame.Regs[x]; r.K == VTerm {
+			fv.maxLenDecl()
+			st.assume(Term{S: "(<= " + r.T.S + " pv_maxlen)", Sort: SBool})
 		}
 	case "cap":
 		a := fv.vterm(st, c.Args[0])
